@@ -8,6 +8,7 @@ try:
 except ImportError:
     _ring = None
 
+import functools
 import numpy, z3
 from pyvc import sym, barr, modeb, loopcut
 from pyvc.sym import cur, _t, ite
@@ -200,25 +201,78 @@ def u_true_bv(ctx):
         calls = []
         bv, gv = loopcut.Token("gebv-result"), loopcut.Token("gegv-result")
 
+        from pybrops.model.gmod.DenseAdditiveLinearGenomicModel import DenseAdditiveLinearGenomicModel as _GM
+
         class GP:
             ntrait = 2
-
-            def gebv(self, g, *a, **kw):
-                calls.append(("gebv", g, a, kw))
-                return bv
-
-            def gegv(self, g, *a, **kw):
-                calls.append(("gegv", g, a, kw))
-                return gv
+        gp = GP()
+        # the model stand-in accepts exactly the calls the real methods accept (positional or by the library's keyword names)
+        gp.gebv = loopcut.like(functools.partial(_GM.gebv, None), lambda gtobj, **kw: (calls.append(("gebv", gtobj, (), kw)), bv)[1])
+        gp.gegv = loopcut.like(functools.partial(_GM.gegv, None), lambda gtobj, **kw: (calls.append(("gegv", gtobj, (), kw)), gv)[1])
         me = loopcut.stub_of(_Real)
-        me.gpmod = GP()
+        me.gpmod = gp
         try:
             out = f(me, pt, gt)
             err = None
         except Exception as x:       # noqa
             out, err = None, "%s: %s" % (type(x).__name__, x)
         ctx.record("estimate[%s]:noraise" % label, err is None, kind="noraise", detail=err or "")
+        if err is not None:
+            continue            # the stand-ins could not follow the code: nothing is concluded from what did not run
         ctx.prove("estimate[%s]: exactly one model call, the breeding-value routine, on the genotypes passed in" % label, [],
                   len(calls) == 1 and calls[0][0] == "gebv" and calls[0][1] is gt)
         ctx.prove("estimate[%s]: returns what the model returned" % label, [], out is bv)
         ctx.prove("canary[%s]: estimate returns the genotypic values" % label, [], out is gv, expect="fail", timeout_ms=1000)
+
+
+RR = "pybrops/model/gmod/rrBLUPModel0.py"
+
+
+@unit(P, "A1[rrBLUPModel0.fit hands fit_numpy the unscaled phenotypes and the {0,1,2} dosages of the objects it was given]", "A1",
+      targets=[RR + ":rrBLUPModel0.fit"])
+def u_rr_fit(ctx):
+    """wiring contract of the object-level wrapper: the model is fitted on the coding every prediction routine uses (allele dosages
+    {0,1,2}), on the original-scale phenotypes, and the result of fit_numpy is returned; raw arrays are passed through untouched"""
+    from pyvc import loopcut
+    from pybrops.model.gmod.rrBLUPModel0 import rrBLUPModel0 as _Real
+    from pybrops.popgen.bvmat.DenseBreedingValueMatrix import DenseBreedingValueMatrix
+    from pybrops.popgen.gmat.DenseGenotypeMatrix import DenseGenotypeMatrix
+    f = loopcut.Extracted(RR + ":rrBLUPModel0.fit")
+    raw_y, dos = loopcut.Token("unscaled phenotypes"), {}
+    asked = []
+
+    class PT(DenseBreedingValueMatrix):
+        def unscale(self, *a, **kw):
+            return raw_y
+
+    class GT(DenseGenotypeMatrix):
+        def mat_asformat(self, format, *a, **kw):
+            asked.append(format)
+            return dos.setdefault(format, loopcut.Token("dosages in coding " + str(format)))
+    y_arr, z_arr = numpy.zeros((3, 1)), numpy.zeros((3, 2), dtype="int8")
+    for label, pt, gt, want_y, want_z in (("matrix objects", object.__new__(PT), object.__new__(GT), raw_y, "{0,1,2}"),
+                                          ("raw arrays", y_arr, z_arr, y_arr, None)):
+        calls = []
+        fitted = loopcut.Token("fitted model")
+
+        def _fit_numpy(Y, X, Z, **kw):
+            calls.append((Y, X, Z, (), kw))
+            return fitted
+
+        class K:
+            fit_numpy = staticmethod(loopcut.like(_Real.fit_numpy, _fit_numpy))
+        del asked[:]
+        try:
+            out = f(K, pt, None, gt)
+            err = None
+        except Exception as x:       # noqa
+            out, err = None, "%s: %s" % (type(x).__name__, x)
+        ctx.record("fit[%s]:noraise" % label, err is None, kind="noraise", detail=err or "")
+        if err is not None:
+            continue
+        ok = len(calls) == 1
+        ctx.prove("fit[%s]: phenotypes handed to fit_numpy are the original-scale values" % label, [], ok and calls[0][0] is want_y)
+        ctx.prove("fit[%s]: genotypes handed to fit_numpy are the {0,1,2} allele dosages" % label, [],
+                  ok and (calls[0][2] is z_arr if want_z is None else (asked == [want_z] and calls[0][2] is dos.get(want_z))))
+        ctx.prove("fit[%s]: returns the model fit_numpy returned" % label, [], out is fitted)
+    ctx.prove("canary: fit codes the genotypes as {-1,0,1}", [], "{-1,0,1}" in dos, expect="fail", timeout_ms=1000)
